@@ -1,12 +1,13 @@
 // hgv_switch: runs a REAL graph
-//     replay(key: TS<Int> | TS<Str>), replay(x: TS<Int>) [, replay(y: TS<Int>)]
-//         -> switch_({k1: f1, k2: f2, ...[, default]}[.reload()], x [, y]) -> record
+//     replay(key: TS<Int> | TS<Str>) [, replay(x: TS<Int>) [, replay(y: TS<Int>)]]
+//         -> switch_({k1: f1, k2: f2, ...[, default]}[.reload()] [, x [, y]]) -> record
 // compiled from the working tree, in simulation, for a textual key/input history, and prints what was
 // observed per engine cycle: the recorded output tick and the lifecycle of the branch graphs.
 // One output line per input line.
 //
 //   case <id>                                  -> "case <id>"   (flushes a pending history first)
-//   cfg <int|str> <reload 0|1> <default|-> <nin 1|2> <key>=<branch> ...     -> "ok" | "bad-op"
+//   cfg <int|str> <reload 0|1> <default|-> <nin 0|1|2> <key>=<branch> ...   -> "ok" | "bad-op"
+//        (str: the keys are the decimal strings of the given integers, wired as TS<Str>)
 //        branches (every branch binds ALL nin inputs; a key-consuming one the key as well):
 //          nin=0: beat    start hook schedules now; every wake: k++, emit 100+k, wake +2 while k<3   (self-scheduling source)
 //                 keyonly key*2                                           (key-consuming)
@@ -19,9 +20,11 @@
 //          nin=2: add2    x+y                                             (needs both valid)
 //                 keyadd2 key+x+y                                         (key-consuming)
 //                 sum2    total += x if x ticked, += y if y ticked; inputs Unchecked (evaluated with invalid inputs too)
-//                 timer2  as timer on x, + y                              (self-scheduling)
+//                 timer2  as timer on x, every output + 1000y; a y tick alone emits 1000y and keeps the pending wake
+//                                                                         (self-scheduling)
 //   c [k <key>] [x <v>] [y <v>]                one engine cycle at MIN_ST + i; answered when the run happens:
-//        "idle"                                 the root graph was not evaluated in that cycle
+//        "idle"                                 the root graph was not evaluated in that cycle (the replay nodes
+//                                               wake the root graph in every cycle of the history, so: never)
 //        "rec=<v|-> out=<v|none> ev=<e,e,...|-> ngc=<stored graphs>"
 //              events, in order: C construct, D<i> destroy, S<i>:<branch> start, X<i> stop,
 //                                E<i> graph evaluate, U<i> node user code      (<i> = ordinal of the start)
